@@ -414,7 +414,7 @@ def one_stack(R, B, vm, items, W):
                         f'serialising the values parsed from the {src_name} cell gives another cell than serialising the original values', W)
     parsed_values_are_callers(R, B, vm, items, c1, mech, W)
     # the list codec below VmStack is public too: same cell as the body of the stack cell, the caller's list left as it was, twice the same
-    if len(items) <= 60 and mech != 'cont':
+    if len(items) <= 60 and mech != 'cont' and hasattr(vm, 'VmStackList'):
         lst = [to_lib_value(v, B, vm) for v in items]
         n0 = len(lst)
         st, l1 = mon.call(vm.VmStackList.serialize, lst)
